@@ -3,6 +3,7 @@
 package app
 
 import (
+	"math"
 	"fmt"
 	"math/rand"
 	"sort"
@@ -93,7 +94,7 @@ func c19one(t *testing.T, out *verifh.Out, r *rand.Rand, dir string) {
 		mFlush, mSync = 2, 1 // the operator runs the master with flush=2
 	}
 	wd.Nodes["m"].FlushLog, wd.Nodes["m"].SyncBinlog = mFlush, mSync
-	lags := []int{-1, 0, 59, 60, 119, 120, 500}
+	lags := []int{-1, 0, 59000, 59600, 60000, 60400, 119000, 119500, 120000, 120300, 500000} // ms (the code: float seconds)
 	tree.Put("optimization_nodes", "")
 	lagOf := map[string]int{}
 	noState := map[string]bool{}
@@ -143,7 +144,7 @@ func c19one(t *testing.T, out *verifh.Out, r *rand.Rand, dir string) {
 			nd := wd.Nodes[h]
 			ns := &nodestate.NodeState{PingOk: true, ReplicationSettings: &mysql.ReplicationSettings{InnodbFlushLogAtTrxCommit: nd.FlushLog, SyncBinlog: nd.SyncBinlog}}
 			if lagOf[h] >= 0 {
-				l := float64(lagOf[h])
+				l := float64(lagOf[h]) / 1000
 				ns.SlaveState = &nodestate.SlaveState{MasterHost: "m", ReplicationState: mysql.ReplicationRunning, ReplicationLag: &l}
 			} else if r.Intn(2) == 0 {
 				ns.SlaveState = &nodestate.SlaveState{MasterHost: "m", ReplicationState: mysql.ReplicationStopped}
@@ -176,7 +177,7 @@ func c19one(t *testing.T, out *verifh.Out, r *rand.Rand, dir string) {
 			if ns, ok := view[h]; ok {
 				x.IsMaster = ns.IsMaster
 				if ns.SlaveState != nil && ns.SlaveState.ReplicationLag != nil {
-					l := int(*ns.SlaveState.ReplicationLag)
+					l := int(math.Round(*ns.SlaveState.ReplicationLag * 1000))
 					x.Lag = &l
 				}
 				if ns.ReplicationSettings != nil {
